@@ -89,7 +89,7 @@ theorem C01_exact_args (s : St) (call : Call) :
       cases heff : r.eff with
       | none => exact Or.inl rfl
       | some t =>
-        refine Or.inr ⟨⟨t.1, i, t.2.1, t.2.2.1, t.2.2.2⟩, i, o, rfl, rfl, ho, rfl, ?_⟩
+        refine Or.inr ⟨⟨t.1, i, t.2.1, t.2.2.1, t.2.2.2.1, t.2.2.2.2⟩, i, o, rfl, rfl, ho, rfl, ?_⟩
         cases hec : isEffectCall call with
         | false => rw [method_eff_none hm hec] at heff; cases heff
         | true =>
@@ -120,16 +120,21 @@ theorem C01_recycled_raises_NSP (b0 : Nat) (hb : b0 ≠ 0) (h : List Ev) (hh : H
   rw [step_method cfg s htg ho hm]
   simp [he, hout, pushEff]
 
-/-- **C01_live_signal_delivered.** The guard refuses nothing it should not: after any history, a signal
-    method on an object whose own incarnation still holds the PID (> 0) returns normally and exactly
-    one `os.kill(pid, sig)` reaches that incarnation. -/
+/-- **C01_live_signal_delivered.** The guard refuses nothing it should not: after any history (permission
+    changes included), a signal method on an object whose own incarnation still holds the PID (> 0) makes
+    exactly one `os.kill(pid, sig)`, addressed to that incarnation, and reports what the kernel answered:
+    it returns normally when the kernel carried the signal out (`refusal = none`), and raises
+    AccessDenied(pid) when the kernel refused with EPERM / EACCES (the logged attempt carries that errno:
+    nothing happened to the process, nothing else was tried). -/
 theorem C01_live_signal_delivered (b0 : Nat) (hb : b0 ≠ 0) (h : List Ev) (hh : HistOK h)
     (i : Nat) (o : PObj) (m : SigMethod)
     (ho : (run cfg (St.init b0) h).ps.objs[i]? = some o)
     (hlive : Listed (run cfg (St.init b0) h).kern o) (hpid : o.pid ≠ 0) :
-    (step cfg (run cfg (St.init b0) h) (.c (.signal i m))).2 = .unit
+    (step cfg (run cfg (St.init b0) h) (.c (.signal i m))).2
+        = outOf o.pid ((run cfg (St.init b0) h).kern.refusal o.pid)
       ∧ (step cfg (run cfg (St.init b0) h) (.c (.signal i m))).1.log
-          = ⟨.kill, i, o.pid, [(sigNumber m : Int)], some o.ghost⟩ :: (run cfg (St.init b0) h).log := by
+          = ⟨.kill, i, o.pid, [(sigNumber m : Int)], some o.ghost, (run cfg (St.init b0) h).kern.refusal o.pid⟩
+              :: (run cfg (St.init b0) h).log := by
   have hinv := run_inv cfg_good.toBootGood h _ hh (init_inv cfg.clk hb)
   generalize run cfg (St.init b0) h = s at *
   obtain ⟨B, hB, hok⟩ := hinv.ps.objs o (List.mem_of_getElem? ho)
@@ -144,14 +149,17 @@ theorem C01_live_signal_delivered (b0 : Nat) (hb : b0 ≠ 0) (h : List Ev) (hh :
     simp only [hf, Option.map_some, Option.some.injEq] at halive
     simp [hpid, pushEff, sigOf_good cfg_good, halive]
 
-/-- the same for setters: on a live incarnation, accepted values are applied exactly once, to it -/
+/-- the same for setters: on a live incarnation, accepted values are handed to the OS exactly once, for it;
+    the call returns normally when the kernel applied them and raises AccessDenied(pid) when it refused -/
 theorem C01_live_setter_applied (b0 : Nat) (hb : b0 ≠ 0) (h : List Ev) (hh : HistOK h)
     (i : Nat) (o : PObj) (kind : SetKind) (args a : List Int)
     (ho : (run cfg (St.init b0) h).ps.objs[i]? = some o)
     (hlive : Listed (run cfg (St.init b0) h).kern o) (hargs : setterArgs cfg o.pid kind args = some a) :
-    (step cfg (run cfg (St.init b0) h) (.c (.setter i kind args))).2 = .unit
+    (step cfg (run cfg (St.init b0) h) (.c (.setter i kind args))).2
+        = outOf o.pid ((run cfg (St.init b0) h).kern.refusal o.pid)
       ∧ (step cfg (run cfg (St.init b0) h) (.c (.setter i kind args))).1.log
-          = ⟨.set kind, i, o.pid, a, some o.ghost⟩ :: (run cfg (St.init b0) h).log := by
+          = ⟨.set kind, i, o.pid, a, some o.ghost, (run cfg (St.init b0) h).kern.refusal o.pid⟩
+              :: (run cfg (St.init b0) h).log := by
   have hinv := run_inv cfg_good.toBootGood h _ hh (init_inv cfg.clk hb)
   generalize run cfg (St.init b0) h = s at *
   obtain ⟨B, hB, hok⟩ := hinv.ps.objs o (List.mem_of_getElem? ho)
@@ -165,6 +173,38 @@ theorem C01_live_setter_applied (b0 : Nat) (hb : b0 ≠ 0) (h : List Ev) (hh : H
   | some x =>
     simp only [hf, Option.map_some, Option.some.injEq] at halive
     simp [pushEff, halive]
+
+/-- **C01_outcome_truthful.** In *any* state, for a signal method or a setter on an existing object: the
+    call returns normally exactly when one OS call was made and the kernel carried it out; an OS call the
+    kernel refused (EPERM / EACCES) is reported as AccessDenied(pid) — never as success, never retried
+    (`C01_exact_args`: at most one entry) — and every other outcome is an exception with nothing handed
+    to the OS at all. -/
+theorem C01_outcome_truthful (s : St) (call : Call) (i : Nat) (o : PObj)
+    (htg : call.target = some i) (hec : isEffectCall call = true) (ho : s.ps.objs[i]? = some o) :
+    ((step cfg s (.c call)).1.log = s.log ∧ ∃ ex, (step cfg s (.c call)).2 = .exc ex)
+    ∨ (∃ e, (step cfg s (.c call)).1.log = e :: s.log ∧ e.res = s.kern.refusal o.pid
+        ∧ (e.res = none → (step cfg s (.c call)).2 = .unit)
+        ∧ (e.res ≠ none → (step cfg s (.c call)).2 = .exc (.accessDenied o.pid))) := by
+  obtain ⟨r, hm⟩ := method_some cfg s.kern s.ps o htg
+  rw [step_method cfg s htg ho hm]
+  have key : (r.eff = none ∧ ∃ ex, r.out = .exc ex)
+      ∨ (∃ t, r.eff = some t ∧ t.2.2.2.2 = s.kern.refusal o.pid ∧ r.out = outOf o.pid (s.kern.refusal o.pid)) := by
+    cases call <;> simp [isEffectCall] at hec <;>
+      simp only [method, Option.some.injEq] at hm <;> subst hm
+    · exact signalM_out_shape _ _ _ _ _
+    · exact setterM_out_shape _ _ _ _ _ _
+  rcases key with ⟨he, ex, hout⟩ | ⟨t, he, hres, hout⟩
+  · exact Or.inl ⟨by simp [he, pushEff], ex, hout⟩
+  · refine Or.inr ⟨⟨t.1, i, t.2.1, t.2.2.1, t.2.2.2.1, t.2.2.2.2⟩, by simp [he, pushEff], hres, ?_, ?_⟩
+    · intro hn
+      simp only at hn
+      rw [hout, ← hres, hn]; rfl
+    · intro hn
+      simp only at hn
+      rw [hout, ← hres]
+      cases hr : t.2.2.2.2 with
+      | none => exact absurd hr hn
+      | some e => rfl
 
 /-! ## Non-vacuity -/
 
@@ -204,7 +244,22 @@ example :
 example :
     (run cfg (St.init 1000) [.k (.spawn 7), .c (.newObj 7), .k (.setBtime 5), .c .bootTime,
         .c (.signal 0 .suspend), .c (.setter 0 .affinity [3, 1, 3])]).log
-      = [⟨.set .affinity, 0, 7, [1, 3], some 0⟩, ⟨.kill, 0, 7, [19], some 0⟩] := by decide
+      = [⟨.set .affinity, 0, 7, [1, 3], some 0, none⟩, ⟨.kill, 0, 7, [19], some 0, none⟩] := by decide
+
+/-- permission inputs: the kernel refuses PID 7 with EPERM — terminate() makes one attempt on the object's own
+    incarnation and raises AccessDenied(7), no sticky flag is set (is_running() still True); a recycled PID is
+    refused by the guard before the kernel is even asked (NoSuchProcess, no attempt), whatever the permissions;
+    once the kernel allows PID 7 again a new object gets its SIGKILL through -/
+example :
+    (step cfg (run cfg (St.init 1000) [.k (.spawn 7), .c (.newObj 7), .k (.perm 7 (some .eperm))])
+        (.c (.signal 0 .terminate))).2 = .exc (.accessDenied 7)
+    ∧ (step cfg (run cfg (St.init 1000) [.k (.spawn 7), .c (.newObj 7), .k (.perm 7 (some .eperm)),
+        .c (.signal 0 .terminate)]) (.c (.isRunning 0))).2 = .bool true
+    ∧ (run cfg (St.init 1000) [.k (.spawn 7), .c (.newObj 7), .k (.perm 7 (some .eperm)), .c (.signal 0 .terminate),
+        .c (.setter 0 .nice [5]), .k (.reap 7), .k (.spawn 7), .c (.signal 0 .kill), .k (.perm 7 none),
+        .c (.signal 0 .kill), .c (.newObj 7), .c (.signal 1 .kill)]).log
+      = [⟨.kill, 1, 7, [9], some 1, none⟩, ⟨.set .nice, 0, 7, [5], some 0, some .eperm⟩,
+         ⟨.kill, 0, 7, [15], some 0, some .eperm⟩] := by decide
 
 /-- handles from `process_iter()`: the first sweep yields handle 0 on PID 7; the PID is recycled; the second
     sweep yields the *cached* handle 0 again (nobody asked `is_running()`: psutil cannot know), a kill
@@ -217,7 +272,7 @@ example :
         (.c (.signal 0 .kill))).2 = .exc (.noSuchProcess 7)
     ∧ (run cfg (St.init 1000) [.k (.spawn 7), .c .processIter, .k (.reap 7), .k (.spawn 7), .c .processIter,
         .c (.signal 0 .kill), .c .processIter, .c .processIter, .c (.oneshot 1 true), .c (.signal 1 .terminate)]).log
-      = [⟨.kill, 1, 7, [15], some 1⟩] := by decide
+      = [⟨.kill, 1, 7, [15], some 1, none⟩] := by decide
 
 /-! ## Why the two fix flags matter: the full statements are false without them -/
 
@@ -236,10 +291,10 @@ def NoWrongOwner_Full (c : Cfg) : Prop :=
     through an object built for incarnation 0: kill() returns normally. -/
 theorem C01_gone_counterexample : ¬ NoWrongOwner_Full cfgNoGoneTest := by
   intro H
-  have hlog : (run cfgNoGoneTest (St.init 1000) witnessL1).log = [⟨.kill, 0, 7, [9], some 1⟩] := by decide
-  have hobj : (run cfgNoGoneTest (St.init 1000) witnessL1).ps.objs[0]? = some ⟨7, 100000, true, false, 0⟩ := by
+  have hlog : (run cfgNoGoneTest (St.init 1000) witnessL1).log = [⟨.kill, 0, 7, [9], some 1, none⟩] := by decide
+  have hobj : (run cfgNoGoneTest (St.init 1000) witnessL1).ps.objs[0]? = some ⟨7, some 100000, some 100000, true, false, 0⟩ := by
     decide
-  obtain ⟨o, ho, _, hw, _⟩ := H 1000 (by decide) witnessL1 (by decide) ⟨.kill, 0, 7, [9], some 1⟩
+  obtain ⟨o, ho, _, hw, _⟩ := H 1000 (by decide) witnessL1 (by decide) ⟨.kill, 0, 7, [9], some 1, none⟩
     (by rw [hlog]; exact List.mem_cons_self)
   simp only at ho hw
   rw [hobj] at ho
@@ -255,11 +310,11 @@ theorem C01_gone_counterexample_returns :
     the recycled PID's new owner indistinguishable: `witnessCoincidence` kills incarnation 100. -/
 theorem C01_bootrewrite_counterexample : ¬ NoWrongOwner_Full cfgBootRewrite := by
   intro H
-  have hlog : (run cfgBootRewrite (St.init 1000) witnessCoincidence).log = [⟨.kill, 0, 7, [9], some 100⟩] := by
+  have hlog : (run cfgBootRewrite (St.init 1000) witnessCoincidence).log = [⟨.kill, 0, 7, [9], some 100, none⟩] := by
     decide
   have hobj : (run cfgBootRewrite (St.init 1000) witnessCoincidence).ps.objs[0]?
-      = some ⟨7, 100000, false, false, 0⟩ := by decide
-  obtain ⟨o, ho, _, hw, _⟩ := H 1000 (by decide) witnessCoincidence (by decide) ⟨.kill, 0, 7, [9], some 100⟩
+      = some ⟨7, some 100000, some 100000, false, false, 0⟩ := by decide
+  obtain ⟨o, ho, _, hw, _⟩ := H 1000 (by decide) witnessCoincidence (by decide) ⟨.kill, 0, 7, [9], some 100, none⟩
     (by rw [hlog]; exact List.mem_cons_self)
   simp only at ho hw
   rw [hobj] at ho
